@@ -408,10 +408,10 @@ def date(year, month_, day):
 
     # taking into account negative month values, then count the days
     # (which can be negative or past the end of the month) from day 1
-    year, month_, _ = normalize_year(
-        math.floor(year), math.floor(month_), 1)
-    if not (1 <= year <= 10399):
+    year, month_ = math.floor(year), math.floor(month_)
+    if not (1 <= year + (month_ - 1) // 12 <= 10399):
         return NUM_ERROR
+    year, month_, _ = normalize_year(year, month_, 1)
 
     # the Gregorian calendar repeats every 400 years (146097 days)
     cycles = 1 if year > 9999 else 0
